@@ -402,7 +402,7 @@ func c10Run(c c10Case) (v vVerdict) {
 			// Configure binds the port itself (closing the previous device first): probe only while nothing is bound
 			if e.udpPort == 0 {
 				for try := 0; try < 40 && e.udpPort == 0; try++ {
-					cand := 25000 + (shard%64)*100 + (c10Counter*3+try)%100
+					cand := 25000 + (shard%64)*100 + (os.Getpid()*7+c10Counter*3+try)%100
 					if l, err := net.ListenPacket("udp", fmt.Sprintf("127.0.0.1:%d", cand)); err == nil {
 						l.Close()
 						e.udpPort = cand
@@ -424,7 +424,7 @@ func c10Run(c c10Case) (v vVerdict) {
 		e.abaco = as
 		shard, _ := strconv.Atoi(os.Getenv("VERIF_SHARD"))
 		for try := 0; try < 40 && e.udpPort == 0; try++ {
-			cand := 12000 + (shard%64)*200 + ((c10Counter*3+try)%99)*2 // below the ephemeral range (32768+): a sender socket of another shard can never take the port between the probe and the bind
+			cand := 12000 + (shard%64)*200 + ((os.Getpid()*7+c10Counter*3+try)%99)*2 // below the ephemeral range (32768+): a sender socket of another shard can never take the port between the probe and the bind
 			if l, err := net.ListenPacket("udp", fmt.Sprintf("127.0.0.1:%d", cand)); err == nil {
 				l.Close()
 				e.udpPort = cand
